@@ -1,10 +1,14 @@
 /* C14 harness (formatter, gate, pipeline): drives aws_format_standard_log_line, the no-alloc logger and a
  * pipeline logger (default formatter, foreground channel or a failing channel, recording writer) through an op
  * file.  Environment text is pinned so that the model can be fed the same: clock_gettime is wrapped
- * (-Wl,--wrap=clock_gettime) to a frozen instant, the thread-id text is set through the library's thread-local
- * `tl_logging_thread_id`.
+ * (-Wl,--wrap=clock_gettime) to a frozen instant; the thread id is pinned by running the ops that follow an `env`
+ * op on a fresh thread whose pthread_self() (-Wl,--wrap=pthread_self) is the value named by the op.  The id TEXT is
+ * computed by the library (aws_thread_current_thread_id -> aws_thread_id_t_to_string, cached per thread by the
+ * formatter): nothing of the library's private state is touched, and a fresh thread per `env` means a cache that
+ * is not per thread shows up as the previous thread's id on this thread's lines.
  *
- *   env <secs> <tid_hex> <ts0_hex> <ts1_hex> <ts2_hex>      expected texts (echoed as OBSERVED on a W line)
+ *   env <secs> <tid_hex> <ts0_hex> <ts1_hex> <ts2_hex>      expected texts (echoed as OBSERVED on a W line);
+ *                                                           tid text = 16 hex digits = the pthread_t of the new thread
  *   fmt <total> <level> <subject_hex|null> <msg_len> <date_format> <shape>
  *   init <a|b|n> <level>          a: pipeline+foreground  b: pipeline+failing channel  n: no-alloc logger
  *   setlevel <a|b|n> <level>
@@ -25,11 +29,20 @@
 #include <string.h>
 #include <time.h>
 
-/* the library's thread-local cache of the thread-id text (log_formatter.c) */
-extern AWS_THREAD_LOCAL struct {
-    bool is_valid;
-    char repr[AWS_THREAD_ID_T_REPR_BUFSZ];
-} tl_logging_thread_id;
+#include <pthread.h>
+
+/* ---- pinned thread id: only the worker thread of the current `env` sees the fake value ---- */
+static pthread_t s_worker;
+static volatile bool s_fake_on;
+static uint64_t s_fake_self;
+pthread_t __real_pthread_self(void);
+pthread_t __wrap_pthread_self(void) {
+    pthread_t r = __real_pthread_self();
+    if (s_fake_on && pthread_equal(r, s_worker)) {
+        return (pthread_t)s_fake_self;
+    }
+    return r;
+}
 
 /* ---- frozen clock ---- */
 static bool s_frozen;
@@ -192,7 +205,6 @@ static void s_reset(void) {
     s_rec_clear();
     s_nwfail = s_wcalls = s_werr = 0;
     s_frozen = false;
-    tl_logging_thread_id.is_valid = false;
 }
 
 static void s_init_pipe(int which, int level) {
@@ -278,16 +290,11 @@ static void s_log_shaped(struct aws_logger *lg, int level, uint32_t subject, siz
 static void s_op_env(char **t) {
     s_frozen_secs = hc_parse_u64(t[1]);
     s_frozen = true;
-    size_t n;
-    uint8_t *tid = hc_hex_decode(t[2], &n);
-    HC_CHECK(n < AWS_THREAD_ID_T_REPR_BUFSZ);
-    memcpy(tl_logging_thread_id.repr, tid, n);
-    tl_logging_thread_id.repr[n] = 0;
-    tl_logging_thread_id.is_valid = true;
-    free(tid);
-    /* observed: what the library produces now for the three date formats */
+    /* observed: the id text the public functions give for this thread */
+    char repr[AWS_THREAD_ID_T_REPR_BUFSZ];
+    HC_CHECK(aws_thread_id_t_to_string(aws_thread_current_thread_id(), repr, AWS_THREAD_ID_T_REPR_BUFSZ) == AWS_OP_SUCCESS);
     printf("W env tid=");
-    hc_put_hex((const uint8_t *)tl_logging_thread_id.repr, strlen(tl_logging_thread_id.repr));
+    hc_put_hex((const uint8_t *)repr, strlen(repr));
     enum aws_date_format fmts[3] = {AWS_DATE_FORMAT_RFC822, AWS_DATE_FORMAT_ISO_8601, AWS_DATE_FORMAT_ISO_8601_BASIC};
     for (int i = 0; i < 3; ++i) {
         uint8_t buf[AWS_DATE_TIME_STR_MAX_LEN + 28];
@@ -398,19 +405,29 @@ static void s_op_log(struct aws_logger *lg, bool is_file, char **t, int base) {
     }
 }
 
-int main(void) {
-    char *t[HC_MAX_TOKS];
-    int n;
-    aws_common_library_init(hc_allocator());
-    aws_register_log_subject_info_list(&s_subject_list);
-    while ((n = hc_next_line(t)) >= 0) {
-        if (!strcmp(t[0], "case")) {
-            s_reset();
-            hc_case_begin(t[1]);
-        } else if (!strcmp(t[0], "env") && n == 6) {
-            s_op_env(t);
-        } else if (!s_frozen) {
-            printf("bad-op\n");
+static char *g_t[HC_MAX_TOKS];
+static int g_n;
+static bool g_pending, g_eof;
+
+/* ops following an `env`, executed on the worker thread until the next `case` / `env` / end of input */
+static void *s_worker_main(void *arg) {
+    (void)arg;
+    char **t = g_t;
+    int n = g_n;
+    s_worker = __real_pthread_self();
+    s_fake_on = true;
+    s_op_env(t);
+    for (;;) {
+        n = g_n = hc_next_line(g_t);
+        if (n < 0) {
+            g_eof = true;
+            break;
+        }
+        if (!strcmp(t[0], "case") || !strcmp(t[0], "env")) {
+            g_pending = true;
+            break;
+        }
+        if (false) {
         } else if (!strcmp(t[0], "wfail") && n >= 2 && n - 1 <= MAXFAIL) {
             s_nwfail = 0;
             for (int i = 1; i < n; ++i) {
@@ -460,6 +477,40 @@ int main(void) {
                 continue;
             }
             s_op_log(&s_noalloc, true, t, 1);
+        } else {
+            printf("bad-op\n");
+        }
+    }
+    s_fake_on = false;
+    return NULL;
+}
+
+int main(void) {
+    aws_common_library_init(hc_allocator());
+    aws_register_log_subject_info_list(&s_subject_list);
+    while (!g_eof) {
+        if (!g_pending) {
+            g_n = hc_next_line(g_t);
+            if (g_n < 0) {
+                break;
+            }
+        }
+        g_pending = false;
+        if (!strcmp(g_t[0], "case")) {
+            s_reset();
+            hc_case_begin(g_t[1]);
+        } else if (!strcmp(g_t[0], "env") && g_n == 6) {
+            size_t len;
+            uint8_t *tid = hc_hex_decode(g_t[2], &len);
+            char txt[17];
+            HC_CHECK(len == 16);
+            memcpy(txt, tid, 16);
+            txt[16] = 0;
+            free(tid);
+            s_fake_self = strtoull(txt, NULL, 16);
+            pthread_t th;
+            HC_CHECK(pthread_create(&th, NULL, s_worker_main, NULL) == 0);
+            pthread_join(th, NULL);
         } else {
             printf("bad-op\n");
         }
